@@ -284,14 +284,32 @@ def discharge(ob, ex, timeout_ms=10000):
     s.add(z3.Not(goal))
     r = s.check()
     if r == z3.unknown:
-        # retry once with a fresh solver, larger budget and a different seed
-        s2 = z3.Solver()
-        s2.set("timeout", timeout_ms * 3)
-        s2.set("smt.random_seed", 7)
-        s2.add(*ob.pc)
-        s2.add(z3.Not(goal))
-        r = s2.check()
-        s = s2
+        # retry in a *fresh z3 context* (the shared context accumulates declarations and learnt state from the hundreds of obligations
+        # discharged before in this process, which makes borderline queries time out that are decided in 2 s on their own), with a
+        # larger budget and other seeds
+        for seed, factor in ((7, 2), (23, 3)):
+            ctx = z3.Context()
+            s2 = z3.Solver(ctx=ctx)
+            s2.set("timeout", timeout_ms * factor)
+            s2.set("smt.random_seed", seed)
+            for a_ in ob.pc:
+                s2.add(a_.translate(ctx))
+            s2.add(z3.Not(goal).translate(ctx))
+            r = s2.check()
+            if r != z3.unknown:
+                if r == z3.sat:
+                    # models are read in the main context: re-check there with what we learnt is not possible; keep the fresh solver's verdict
+                    # and rebuild the model by asking the main-context solver again with a long budget
+                    s3 = z3.Solver()
+                    s3.set("timeout", timeout_ms * 3)
+                    s3.add(*ob.pc)
+                    s3.add(z3.Not(goal))
+                    if s3.check() == z3.sat:
+                        s = s3
+                    else:
+                        r = z3.unknown
+                        continue
+                break
     d["time_s"] = round(time.time() - t0, 4)
     if r == z3.unsat:
         d["status"] = "discharged"
